@@ -61,6 +61,7 @@ def cut_sets(U, full=True):
     out.append(("umax", [ks[-1]]))
     out.append(("ends_and_mid", [ks[0], mids[0], ks[-1]]))
     out.append(("repeated", [mids[-1], mids[-1]]))
+    out.append(("empty", []))  # no cut point besides the ends: the whole curve as one piece
     inter = [x for _, x in singles]
     pairs = list(itertools.combinations(inter, 2))
     if not full and len(pairs) > 3:
@@ -159,12 +160,23 @@ def run_case(case, res):
             configs += [(e, None) for e in al.unit_vectors(n)]
             if full:
                 configs.append((gen2, gw))
-        for P, W in configs:
+        configs = [(P, W, "list") for P, W in configs]
+        if lab in ("empty", "zero", "mid", "existing", "pair", "repeated", "umin", "ends_and_mid"):
+            # the same request in other containers: a tuple, a numpy array (object dtype: exact entries)
+            configs += [(gen, None, "tuple"), (gen, None, "array")]
+        for P, W, box in configs:
             res.transition()
             c = lib.mk_curve(U, P, W)
             before = lib.snap_curve(c)
-            o = lib.outcome(c.split) if nodes is None else lib.outcome(c.split, list(nodes))
-            tags = dict(cut=lab, rational=W is not None)
+            if nodes is None:
+                o = lib.outcome(c.split)
+            elif box == "array":
+                arr = lib.np.empty(len(nodes), dtype=object)
+                arr[:] = list(nodes)
+                o = lib.outcome(c.split, arr)
+            else:
+                o = lib.outcome(c.split, tuple(nodes) if box == "tuple" else list(nodes))
+            tags = dict(cut=lab, rational=W is not None, box=box)
             where = f"U={U} P={P} W={W} split({nodes}) [{lab}]"
             res.state((tuple(U), lib.tagdeep(P), lib.tagdeep(W), lab, tuple(nodes or ())))
             res.outcome(f"split:{lab}:{'ok' if o[0] == 'ok' else o[1]}")
